@@ -126,6 +126,130 @@ def rule_f2(chk: Check, F, thorough: bool):
         chk.require(lo >= 1, "F2-scan-pattern", f"{name}:min-width", repo.TOKENIZE, f"{name} can match the empty string")
 
 
+def split_named_branches(pattern: str) -> list[tuple[str, str]]:
+    """`(?P<A>x)|(?P<B>y)` -> [("A", "x"), ("B", "y")] (top-level alternation of named groups, as `choice()` builds it)."""
+    out, depth, i, start, in_class = [], 0, 0, 0, False
+    parts = []
+    while i < len(pattern):
+        c = pattern[i]
+        if c == "\\":
+            i += 2
+            continue
+        if in_class:
+            if c == "]":
+                in_class = False
+        elif c == "[":
+            in_class = True
+            if i + 1 < len(pattern) and pattern[i + 1] == "]":
+                i += 1
+            elif pattern[i + 1:i + 3] == "^]":
+                i += 2
+        elif c == "(":
+            depth += 1
+        elif c == ")":
+            depth -= 1
+        elif c == "|" and depth == 0:
+            parts.append(pattern[start:i])
+            start = i + 1
+        i += 1
+    parts.append(pattern[start:])
+    import re as _re
+    for part in parts:
+        m = _re.fullmatch(r"\(\?P<(\w+)>(.*)\)", part, _re.S)
+        if not m:
+            raise AnalysisError(f"mode pattern is not an alternation of named groups: {part[:40]!r}")
+        out.append((m.group(1), m.group(2)))
+    return out
+
+
+def rule_f2_order(chk: Check, ix: Index, F):
+    """In the literal part of an f-string a `{` that is not doubled opens a replacement field — whatever precedes it, a backslash
+    included.  The scanner looks for the next delimiter with an ordered alternation; whichever alternative is tried first must
+    not run over a field-opening brace: if the closing-quote alternative comes first, its language must contain no undoubled `{`;
+    if the brace alternative comes first, that is F2's `crosses-closing-quote` obligation."""
+    endpats = F.need("endpats")
+    UNDOUBLED = r"(?:[^{]|\{\{)*\{(?!\{)(?:.|\n)*"
+    n = 0
+    for f, call, mode, pat, defs in add_prog_sites(ix):
+        if mode != "ModeMiddle" or pat is None:
+            continue
+        for text in fold_pattern(pat, defs, endpats):
+            names = split_named_branches(text)
+            order = [nm for nm, _ in names]
+            if "End" not in order or "LBrace" not in order:
+                continue
+            n += 1
+            chk.count("F2-scan-pattern")
+            key = f"{f.qual}:middle-pattern:{order}"
+            if order.index("LBrace") < order.index("End"):
+                chk.ok("F2-scan-pattern", key, f"{f.rel}:{call.lineno}", "brace search first")
+                continue
+            endp = dict(names)["End"]
+            try:
+                an = rx.Analysis({"end": endp, "brace": UNDOUBLED}, exhaustive=False)
+                w = an.witness_intersection(["end", "brace"])
+            except rx.Unsupported as e:
+                raise AnalysisError(f"End pattern not analysable: {e}")
+            chk.require(w is None, "F2-scan-pattern", key, f"{f.rel}:{call.lineno}",
+                        f"the closing-quote search is tried before the brace search and matches {w!r}, which contains a `{{` that is not "
+                        f"doubled: the replacement field after it becomes literal text (e.g. a field preceded by a backslash)")
+    if n == 0:
+        raise AnalysisError("F2: no literal-part scan pattern with both End and LBrace found")
+
+
+def rule_f10(chk: Check, ix: Index, rule_id: str = "F10-merged-literals"):
+    """CPython merges adjacent literal pieces of a joined string into one Constant.  Structural clause: everything that ends up in
+    `JoinedStr.values` went through the merge — each `append`/`extend` on that list sits in the else-branch of the test "the last
+    piece and this piece are both Constants" (whose then-branch extends the last piece)."""
+    f = ix.get("Parser.concatenate_strings")
+    sites = [c for c in own_nodes(f.node) if isinstance(c, ast.Call) and norm_stmt(c.func) == "ast.JoinedStr"]
+    chk.count(rule_id)
+    if not sites:
+        raise AnalysisError("concatenate_strings no longer builds a JoinedStr")
+    bad = []
+    for c in sites:
+        v = next((k.value for k in c.keywords if k.arg == "values"), None)
+        if not isinstance(v, ast.Name):
+            bad.append(f"values={norm_stmt(v) if v is not None else '?'} is not a list built in this function")
+            continue
+        adds = [n for n in own_nodes(f.node) if isinstance(n, ast.Call) and isinstance(n.func, ast.Attribute) and n.func.attr in ("append", "extend", "insert")
+                and norm_stmt(n.func.value) == v.id]
+        inits = [n for n in own_nodes(f.node) if isinstance(n, (ast.Assign, ast.AnnAssign)) and
+                 norm_stmt(n.targets[0] if isinstance(n, ast.Assign) else n.target) == v.id]
+        if not adds or not inits or any(not (isinstance(i.value, ast.List) and not i.value.elts) for i in inits if i.value is not None):
+            bad.append(f"`{v.id}` is not an initially empty list filled by append")
+            continue
+        for a in adds:
+            guarded = False
+            for i in own_nodes(f.node):
+                if isinstance(i, ast.If) and any(a is x for b in i.orelse for x in ast.walk(b)):
+                    t = norm_stmt(i.test)
+                    if t.count("isinstance(") >= 2 and t.count("ast.Constant") >= 2 and isinstance(i.test, ast.BoolOp) and isinstance(i.test.op, ast.And):
+                        guarded = True
+            if a.func.attr != "append" or not guarded:
+                bad.append(f"`{norm_stmt(a)[:60]}` adds to the parts without the both-are-Constants merge test")
+    chk.require(not bad, rule_id, "Parser.concatenate_strings:values", f.where,
+                f"pieces reach JoinedStr.values unmerged: {bad[:2]} — `f'{{a}}x' 'y' f'{{b}}'` then has two Constants in a row where CPython "
+                f"has one")
+
+
+def rule_f5b(chk: Check, ix: Index, rule_id: str = "F5-text-decoding"):
+    """Escape decoding of literal text, if done by evaluation, must evaluate a *token's own text*: a fragment re-quoted by hand
+    (`literal_eval(quote + text + quote)`) is a different literal whenever the text ends in a backslash or contains that quote
+    (`f\"\"\"... "*\\.py" "{p}" \"\"\"`), and is then refused or cut."""
+    for q, g in sorted(ix.funcs.items()):
+        if g.rel != repo.SUBHEADER:
+            continue
+        for c in own_nodes(g.node):
+            if isinstance(c, ast.Call) and norm_stmt(c.func) in ("ast.literal_eval", "literal_eval", "eval") and c.args:
+                chk.count(rule_id)
+                a = c.args[0]
+                ok = isinstance(a, ast.Attribute) and a.attr == "string"
+                chk.require(ok, rule_id, f"{q}:evaluates:{norm_stmt(a)[:40]}", f"{g.rel}:{c.lineno}",
+                            f"`{q}` evaluates `{norm_stmt(a)[:60]}`, a literal assembled from pieces rather than a token's text: the pieces "
+                            f"can close the quotes early or escape the closing quote, so valid f-string text is refused")
+
+
 def rule_f3(chk: Check, ix: Index):
     from ..fprogs import delimiter_paths
     f = ix.get("handle_fstring_progs")
@@ -534,6 +658,9 @@ def run(chk: Check):
     F = constfold.fold_tokenize()
     rule_f1(chk, ix, F)
     rule_f2(chk, F, chk.tier == "thorough")
+    rule_f10(chk, ix)
+    rule_f5b(chk, ix)
+    rule_f2_order(chk, ix, F)
     rule_f3(chk, ix)
     rule_f4(chk, repo.ir_x(), typed.run())
     rule_f5(chk, repo.ir_x(), ix, F)
